@@ -51,6 +51,20 @@ Theorem C12_decode : forall (rows : list (list spx)) (w : nat),
                   pixel_at (p_events pic) (N.of_nat xn) (N.of_nat yn) = Some (reg_color scale pal c).
 Proof. exact draw_decodes. Qed.
 
+(* ... including cropped views: Image::crop only changes the Shape over the shared pixel
+   buffer; the handler is given the window `view_rows parent crop` (C07: a Shape view is
+   that window) and everything above holds of the window, wherever it lies in its parent *)
+Theorem C12_decode_view : forall (parent : list (list spx)) crop (w : nat),
+  src_ok (view_rows parent crop) w ->
+  exists pal q,
+    quantize (sixel_eff (view_rows parent crop)) sixel_palette_size sixel_dither = Ok (pal, q) /\
+    (length pal <= 256)%nat /\
+    forall orders, orders_ok q orders = true ->
+    exists bytes pic,
+      sixel_draw (view_rows parent crop) orders = Ok bytes /\ sixel_decode bytes = Some pic /\
+      picture_ok (N.of_nat w) (N.of_nat (height6 (view_rows parent crop))) pic = true.
+Proof. exact draw_decodes_view. Qed.
+
 (* At most 256 distinct colours (below the subsampling threshold): the decoded picture
    equals the source at sixel's 0..100 resolution, pixel for pixel. *)
 Theorem C12_exact : forall (rows : list (list spx)) (w : nat),
